@@ -28,7 +28,7 @@ RULE = ('poll scripts of 2-10 responses (update with 0-4 tracepoints / no-change
 ASSUMPTIONS = ['polls are issued by one thread (as the agent\'s single timer does); the asynchrony is in applying them',
                '"polling continues" is decided as bounded progress: timer thread alive and a further request within '
                '100 intervals; alive but silent is inconclusive']
-REQUIRE = {'scripts_checked': 250, 'updates_applied': 800, 'gates_engaged': 40, 'inflight_overlaps': 100, 'hash_checks': 800,
+REQUIRE = {'updates_with_an_empty_hash': 8, 'scripts_checked': 250, 'updates_applied': 800, 'gates_engaged': 40, 'inflight_overlaps': 100, 'hash_checks': 800,
            'failed_polls': 70, 'unintelligible_answers': 30, 'timer_sessions': 6, 'restart_sessions': 3,
            'preempt_points': 80, 'preempt_overtakes': 8}
 
@@ -140,7 +140,10 @@ def case_script(seed, out, spec, wd):
             n = r.randrange(0, 5)
             tps = [('c%d-l%d' % (k, i), lines[i]) for i in sorted(r.sample(range(6), n))]
             bad = r.randrange(0, 3) if r.chance(0.25) else 0
-            script.append(('update', 'hash-%d' % k, tps, bad, r.chance(0.4)))
+            # (a service that leaves the hash of a configuration empty: the agent then reports the empty hash, not the
+            # hash of an earlier configuration that is no longer installed)
+            empty_hash = k > 1 and r.chance(0.07)
+            script.append(('update', '' if empty_hash else 'hash-%d' % k, tps, bad, r.chance(0.4)))
         elif c <= 6:
             script.append(('nochange',))
         elif c == 7:
@@ -300,7 +303,7 @@ def case_script(seed, out, spec, wd):
             'convergence:installed-set-mismatch')
         out.violation(mech, 'after quiescence the agent acts on %s, the latest configuration + registrations is %s' % (
             sorted(acted), sorted(want)), witness, replay)
-    if (final_hash or None) != model_hash[0]:
+    if (final_hash or None) != (model_hash[0] or None):
         out.violation('convergence:reported-hash', 'next poll reports hash %r, the last processed update is %r' % (
             final_hash, model_hash[0]), witness, replay)
     # every hash ever reported is the initial one or one the service had sent before
@@ -316,6 +319,7 @@ def case_script(seed, out, spec, wd):
             known.add(step[1])
         out.count('hash_checks')
     out.count('scripts_checked')
+    out.count('updates_with_an_empty_hash', sum(1 for s_ in script if s_[0] == 'update' and s_[1] == ''))
     out.count('updates_applied', len(applied))
     out.count('failed_polls', failed_polls)
     out.count('unintelligible_answers', sum(1 for s_ in script if s_[0] == 'unknown_type'))
